@@ -509,6 +509,37 @@ pub fn run(cfg: &Cfg, rep: &mut Rep) {
             }
         }
     }
+    // compose: the full cross of the special values of all seven fields and the sign (seed-independent) - calendar-like
+    // fields at the ends of their usual ranges and one past them, day counts at the 64-bit and century thresholds of the
+    // total. A fast path guarded on "the usual ranges" or on the day count alone is entered and left on exactly these.
+    if !cfg.fuzz {
+        let days = [0u64, 1, 36_524, 36_525, 73_049, 106_751, 106_752, 213_503, 213_504, (1 << 25) + 1, (1 << 53) - 1];
+        let usual = [23u64, 59, 59, 999, 999, 999];
+        for &d in &days {
+            for code in 0..15_625u32 {
+                if !mine() {
+                    continue;
+                }
+                let mut f = [d, 0, 0, 0, 0, 0, 0];
+                let mut c = code;
+                for i in 0..6 {
+                    f[i + 1] = match c % 5 {
+                        0 => 0,
+                        1 => 1,
+                        2 => usual[i],
+                        3 => usual[i] + 1,
+                        _ => usual[i] / 2 + 3,
+                    };
+                    c /= 5;
+                }
+                rep.class("compose/cross-of-special-fields");
+                check_compose(rep, [-1i8, 1, 0][(code % 3) as usize], f);
+                if code % 7 == 0 {
+                    check_compose(rep, [1i8, -1, -128][(code % 3) as usize], f);
+                }
+            }
+        }
+    }
     // every producer on whole centuries and their neighbours (the landings where a carry has to happen)
     for k in -40i128..=40 {
         if cfg.fuzz {
